@@ -80,6 +80,11 @@ func (w *World) recvOracle(c *tibctesting.TestChain, p packettypes.Packet, h uin
 		w.hit("C13", fmt.Sprintf("receive-accepted-by-a-chain-the-packet-does-not-name chain=%s %s relay=%s", c.ChainName, pkeyStr(p), undash(p.RelayChain)))
 		w.hit("C01", fmt.Sprintf("receive-accepted-by-a-chain-the-packet-does-not-name chain=%s %s relay=%s", c.ChainName, pkeyStr(p), undash(p.RelayChain)))
 	}
+	if c.ChainName == p.DestinationChain && p.Port != "tibcmock" && p.Port != "NFT" && p.Port != "MT" {
+		// no application is bound to the port: the message must fail as a whole (no receipt, no
+		// acknowledgement), so that the genuine packet can still be delivered
+		w.hit("C13", fmt.Sprintf("receive-accepted-on-the-destination-for-a-port-without-application port=%s %s", p.Port, key))
+	}
 	// C01: the proving chain committed exactly this packet at the proof height
 	q := w.Chain(recvProver(c, p))
 	want := sha256.Sum256(p.Data)
@@ -109,6 +114,7 @@ func (w *World) recvOracle(c *tibctesting.TestChain, p packettypes.Packet, h uin
 	pk := c.App.TIBCKeeper.PacketKeeper
 	if !pk.HasPacketReceipt(c.GetContext(), p.SourceChain, p.DestinationChain, p.Sequence) {
 		w.hit("C02", "accepted-receive-left-no-receipt "+key)
+		w.hit("C19", "accepted-receive-left-no-receipt "+key)
 	}
 	// C11: a relay chain either forwards (commitment for the next hop, no acknowledgement) or
 	// refuses (error acknowledgement, nothing to prove onwards)
@@ -119,6 +125,7 @@ func (w *World) recvOracle(c *tibctesting.TestChain, p packettypes.Packet, h uin
 			w.hit("C11", "relay-refused-packet-but-left-forwarding-commitment "+key)
 			w.hit("C13", "relay-refused-packet-but-left-forwarding-commitment "+key)
 			w.hit("C19", "error-acknowledged-receive-left-a-forwarding-commitment "+key)
+			w.hit("C06", "relay-chain-refused-the-transfer-but-left-a-commitment-the-destination-can-verify "+key)
 		}
 		if !hasC && !hasA {
 			w.hit("C11", "relay-accepted-packet-but-neither-forwarded-nor-answered "+key)
